@@ -226,3 +226,73 @@ def ragged(op, w0, w1, r1, extra, x, qx, qy, which=0, **kw):
     t.insert_column(x)
     exp = _rref(w0, w1, r1, qx, qy) if qx < x else (None if qx == x else _rref(w0, w1, r1, qx - 1, qy))
     return judge(t, exp, max(ncols, x) + 1, 1 + r1, qx, qy, which)
+
+
+def bulk(x, y, gap, qx, qy, tpl=(1, 1, 1, 1), mode="values", which=0, **kw):
+    r0, r1, c0, c1 = tpl
+    t = mktab(r0, r1, c0, c1, True, 0)
+    if mode == "cells":
+        t.set_cells([[Cell(7), Cell(8)], [] if gap else [Cell(5)], [Cell(6)]], (x, y))
+    else:
+        t.set_values([[7, 8], [] if gap else [5], [6]], (x, y))
+    if qy == y and qx == x:
+        exp = 7
+    elif qy == y and qx == x + 1:
+        exp = 8
+    elif qy == y + 1 and qx == x and not gap:
+        exp = 5
+    elif qy == y + 2 and qx == x:
+        exp = 6
+    else:
+        exp = ref(r0, r1, c0, c1, qx, qy)
+    return judge(t, exp, max(c0 + c1, x + 2), max(r0 + r1, y + 3), qx, qy, which)
+
+
+def _empty_judge(t, exp_fn, ew, eh, qx, qy):
+    exp = exp_fn(qx, qy)
+    f = rlib.fresh(t)
+    sv, smsg = rlib.structure_valid(t)
+    ok = (t.get_value((qx, qy)) == exp and rlib.xml_table_value(t, qx, qy) == exp and t.width == ew and t.height == eh
+          and rlib.xml_table_height(t) == eh and rlib.xml_table_width(t) == ew and t._tmap == f._tmap and t._cmap == f._cmap and sv)
+    return (not ok), (f"probe ({qx},{qy}) expected {exp!r} size {ew}x{eh}; live {t.get_value((qx, qy))!r} {t.width}x{t.height}; XML {rlib.xml_table_value(t, qx, qy)!r} "
+                      f"{rlib.xml_table_width(t)}x{rlib.xml_table_height(t)}; maps {t._tmap}/{f._tmap} {t._cmap}/{f._cmap}; structure {smsg or 'ok'}: {t.serialize()}")
+
+
+def empty_first_write(x, y, ca, rr, qx, qy, op=0, **kw):
+    t = Table("t")
+    if op == 0:
+        t.set_value((x, y), 9)
+        return _empty_judge(t, lambda a, b: 9 if (a == x and b == y) else None, x + 1, y + 1, qx, qy)
+    if op == 1:
+        t.set_cell((x, y), _cell(9, rr))
+        return _empty_judge(t, lambda a, b: 9 if (b == y and x <= a < x + rr) else None, x + rr, y + 1, qx, qy)
+    row = Row()
+    if ca > 0:
+        row.append_cell(_cell(8, ca), clone=False)
+    if rr > 1:
+        row.repeated = rr
+    if op == 2:
+        t.append_row(row)
+        t.set_value((x, y), 9)
+        return _empty_judge(t, lambda a, b: 9 if (a == x and b == y) else (8 if (b < rr and a < ca) else None), max(ca, x + 1, 1), max(rr, y + 1), qx, qy)
+    t.set_row(y, row)
+    t.append_column(Column())
+    return _empty_judge(t, lambda a, b: 8 if (y <= b < y + rr and a < ca) else None, max(ca, 1) + 1, y + rr, qx, qy)
+
+
+def no_columns(r0, r1, op, x, qx, qy, **kw):
+    t = mktab(r0, r1, 1, 1, True, 0)
+    t.delete_column(0)
+    t.delete_column(0)
+    h = r0 + r1
+    if op == 0:
+        t.set_value((x, 0), 9)
+        return _empty_judge(t, lambda a, b: 9 if (a == x and b == 0) else None, x + 1, h, qx, qy)
+    if op == 1:
+        t.append_column(Column())
+        return _empty_judge(t, lambda a, b: None, 1, h, qx, qy)
+    if op == 2:
+        t.insert_column(x, Column())
+        return _empty_judge(t, lambda a, b: None, x + 1, h, qx, qy)
+    t.set_column(x, Column())
+    return _empty_judge(t, lambda a, b: None, x + 1, h, qx, qy)
